@@ -130,6 +130,7 @@ func (a *c14Agent) cdid() string { return "did:conn:" + a.name }
 type c14World struct {
 	profile, mtp, kt string
 	legacy           bool
+	sharedDID        bool
 	bus              *c14Bus
 	docs             map[string]*did.Doc
 	agents           map[string]*c14Agent
@@ -165,9 +166,24 @@ func (w *c14World) addAgent(name string, p *envParty, withMediator bool) *c14Age
 		w.keyNames[dk] = name
 	case w.profile == "v2":
 		id := a.did + "#key-1"
-		ka, err := envKeyAgreement(p, w.kt, a.did, id)
+		kaDID := a.did
+		if w.sharedDID && !strings.HasPrefix(name, "M") && name != "S" {
+			// the clients' keys are key agreement methods of ONE DID (devices of one organisation): key ids that differ in
+			// the fragment only are different keys, and different routes
+			kaDID = "did:test:org"
+			id = kaDID + "#" + name
+		}
+		ka, err := envKeyAgreement(p, w.kt, kaDID, id)
 		if err != nil {
 			panic(err)
+		}
+		if kaDID != a.did {
+			org := w.docs[kaDID]
+			if org == nil {
+				org = &did.Doc{ID: kaDID, Context: []string{"https://www.w3.org/ns/did/v1"}}
+				w.docs[kaDID] = org
+			}
+			org.KeyAgreement = append(org.KeyAgreement, *ka)
 		}
 		doc.KeyAgreement = []did.Verification{*ka}
 		doc.Service = []did.Service{{ID: a.did + "#svc", Type: "DIDCommMessaging",
@@ -425,7 +441,8 @@ func c14Run(input string) string {
 		return "bad-input"
 	}
 	w := &c14World{profile: profile, mtp: mtp, kt: kt, legacy: legacy, bus: &c14Bus{offline: map[string]bool{}},
-		docs: map[string]*did.Doc{}, agents: map[string]*c14Agent{}, keyNames: map[string]string{}}
+		docs: map[string]*did.Doc{}, agents: map[string]*c14Agent{}, keyNames: map[string]string{},
+		sharedDID: profile == "v2" && len(input)%3 != 0}
 	pool := envParties(kt, 14)
 	// agents: S, c0 (R), Rb (second device of the recipient), c1, c2, O (owner of k3, not a client), M1..Mn (at least M1)
 	names := []string{"S", "c0", "Rb", "c1", "c2", "O"}
